@@ -7,16 +7,38 @@ RULE = ("Every Verify/Repair transition of the bounded Par2Archive and Par1Archi
         "files, a sub-directory and a foreign file with an archive-like name; the whole tree is snapshotted (bytes, inode, "
         "mtime, mode) before and after and, on every other edge, write calls are logged through the H2 file-system hook; "
         "seeded large sets likewise; every Create is snapshotted too.  TLC judges write_discipline, listed_means_written, "
-        "nothing_else_changed, verify_modifies_nothing, create_touches_only_archive.")
+        "nothing_else_changed, verify_modifies_nothing, create_touches_only_archive; additionally the C02 clauses on reference-written "
+        "PAR1 sets with entries not saved in the parity set and on repairs interrupted by an injected write failure (every file "
+        "written before the failure is listed in the result).")
 ASSUME = ["the sandbox file system reports mtime/inode changes of rewritten files (write calls are additionally logged via the hook)",
           "damaged or foreign recovery files as archive states are covered by C13/C19 with the same write-discipline clause"]
+
+
+def extra_drivers(ctx):
+    """C02 clauses on executions recorded by two other drivers: reference-written PAR1 sets with entries
+    that are not saved in the parity set (c10), and repairs interrupted by an injected write failure
+    (c18: every file written before the failure must be listed)."""
+    import json
+    r = ctx.mc("MC_C10", "MC_C10.cfg", "PAR1 index layouts (non-saved entries)", workers=4)
+    lp = ctx.work.path("p1layouts.ndjson")
+    with open(lp, "w") as f:
+        for l in r.tagged("LAYOUT"):
+            f.write(json.dumps(l) + "\n")
+    t = ctx.drive(["c10", "-in", lp], out_name="c02-c10.ndjson")
+    e1 = vlib.read_ndjson(t)
+    v1 = [v for v in ctx.judge("Trace_C10", t) if v["clause"].startswith("C02.")]
+    t2 = ctx.drive(["c18"], out_name="c02-c18.ndjson")
+    e2 = vlib.read_ndjson(t2)
+    v2 = [v for v in ctx.judge("Trace_C18", t2) if v["clause"].startswith("C02.")]
+    return archive.combine((e1, v1), (e2, v2))
 
 
 def run(ctx):
     def once():
         return archive.combine(archive.small_scope(ctx, ["C02."]),
                                archive.big_sets(ctx, ["C02."], "c02"),
-                               archive.par1_family(ctx, ["C02."]))
+                               archive.par1_family(ctx, ["C02."]),
+                               extra_drivers(ctx))
     events, verdicts = once()
     ctx.samples = archive.pick_samples(events) + [e for e in events if e.get("op") == "create"][:2]
     return ctx.finish(verdicts, events, RULE, ASSUME, rerun=once)
